@@ -73,6 +73,23 @@ def _var(dt, lim=None):
     return v
 
 
+class _IntSub(int):
+    """an int subclass, as an IntEnum member or a numpy-free 'typed integer' of an application would be"""
+
+
+def as_type(v, vt):
+    """the same integral value handed over as another Python number type"""
+    if vt is None: return v
+    if vt == "decimal":
+        import decimal
+        return decimal.Decimal(v)
+    if vt == "fraction":
+        import fractions
+        return fractions.Fraction(v)
+    if vt == "intsub": return _IntSub(v)
+    raise ValueError(vt)
+
+
 def canon_value(v):
     if isinstance(v, bool): return int(v)
     if isinstance(v, str): return S(v)
@@ -83,7 +100,7 @@ def impl(c):
     k = c["kind"]
     var = _var(c["dt"], c.get("lim"))
     if k == "enc_int":
-        return guarded(lambda: bytes(var.encode_raw(c["v"])))
+        return guarded(lambda: bytes(var.encode_raw(as_type(c["v"], c.get("vt")))))
     if k == "enc_str":
         return guarded(lambda: bytes(var.encode_raw("".join(chr(x) for x in c["s"]))))
     if k == "enc_real":
@@ -386,6 +403,10 @@ def gen_cases(rng, tier):
             elif r < 0.9: lim = [lo, hi]
             else: lim = [rng.randint(lo, hi), None]
             c["lim"] = lim
+    # the same integral value as another exact Python number type (the codec converts with int())
+    for c in cases:
+        if c["kind"] == "enc_int" and c["dt"] in INT_TYPES and rng.random() < 0.2:
+            c["vt"] = rng.choice(["decimal", "fraction", "intsub"])
     # half of the decodes get the bytes in a bytearray
     for c in cases:
         if c["kind"] in ("dec", "dec_enc") and rng.random() < 0.5:
